@@ -108,6 +108,21 @@ pub fn doc_line(t: &mut Tape) -> String {
     }
 }
 
+const SAFE_DOCS: &[&str] = &[
+    "", " text", " Some words about this item.", " - list item", " # Heading", " `code` and *emphasis*", " 1. first",
+    " caf\u{e9} \u{2192} ok", " > quote", " | a | b |", " line with trailing spaces   ",
+];
+
+/// A doc line without `"` and `\`: plain markdown, sometimes with a (resolving or broken) link.
+pub fn safe_doc_line(t: &mut Tape) -> String {
+    match t.below(6) {
+        0..=2 => ps(t, SAFE_DOCS).to_string(),
+        3 => format!(" See [{}].", ps(t, LINK_NAMES)),
+        4 => format!(" [`{}`] and [x]({})", link_path(t), link_path(t)),
+        _ => format!(" [{}]", link_path(t)),
+    }
+}
+
 const MB: &[&str] = &[
     "\u{e4}", "\u{d6}", "\u{2192}", "\u{1F600}", "\u{200b}", "\u{a0}", "\u{fffd}", "e\u{301}", "\u{202e}", "\u{4e2d}",
     "\u{10ffff}", "\u{80}", "\u{7ff}", "\u{800}", "\u{2028}", "\u{85}",
